@@ -2415,7 +2415,25 @@ def r100(ctx: Ctx) -> RuleReport:
 def r96b(ctx: Ctx) -> RuleReport:
     rep = RuleReport('R96b', r96b.title, floor=30)
     pmaps: Dict[str, dict] = {}
+    # what is only reachable from __repr__ / __str__ is outside every property (see R96)
+    disp: Set[str] = set()
+    stk = [f for f in ctx.repo.all_functions() if f.name in ('__repr__', '__str__')]
+    while stk:
+        f_ = stk.pop()
+        for c_ in ctx.cg.callees(f_):
+            if c_.fq not in disp:
+                disp.add(c_.fq)
+                stk.append(c_)
+    other_callers: Set[str] = set()
+    for f_ in ctx.repo.all_functions():
+        if f_.fq in disp or f_.name in ('__repr__', '__str__'):
+            continue
+        for c_ in ctx.cg.callees(f_):
+            other_callers.add(c_.fq)
+    disp -= other_callers
     for callee in ctx.repo.all_functions():
+        if callee.fq in disp:
+            continue
         if callee.name in ('__init__', '__repr__', '__str__') or any(isinstance(n, (ast.Yield, ast.YieldFrom)) for n in walk_local(callee.node)):
             continue
         rets = [n for n in walk_local(callee.node) if isinstance(n, ast.Return)]
